@@ -30,6 +30,21 @@ func propSpecs() map[string]*PropSpec {
 			Assume: append([]string{"the threshold oracle is the maximal one (largest multiple of n not exceeding 2^32-1): a sampler that used a smaller, still unbiased threshold would be reported and has to be judged by hand"}, commonAssume...),
 		},
 		{
+			ID: "C11", Sub: "spg", Level: "model_checking",
+			Harnesses: []HSpec{
+				{Name: "H11a", Quick: P{"t": 3, "b": 3}, Thorough: P{"t": 3, "b": 3, "anytype": 1}, Reach: []string{"indexed", "roundtrip", "non-ascii"}},
+				{Name: "H11a", Label: "long-tokens", ThoroughOnly: true, Thorough: P{"t": 2, "b": 5, "anytype": 1}, Reach: []string{"roundtrip", "non-ascii"}},
+				{Name: "H11a", Label: "many-tokens", ThoroughOnly: true, Thorough: P{"t": 5, "b": 2}, Reach: []string{"roundtrip", "non-ascii"}},
+				{Name: "H11b", Reach: []string{"indexed", "roundtrip", "refused"}},
+			},
+			Bounds: map[string]string{
+				"H11a":    "token sequences of 1..t tokens, each 1..b arbitrary bytes assumed valid UTF-8 (utf8.ValidString executed symbolically, so every mixture of 1- to 4-byte characters arises), type byte symbolic in {0,1} (quick) or any uint8 (thorough); quick t=3,b=3; thorough t=3,b=3 any type, t=2,b=5 any type, t=5,b=2",
+				"H11b":    "one token of 254, 255 and 256 characters (ASCII with symbolic bytes, and two-byte characters with a symbolic second byte), alone or followed by a separator and an atom",
+				"outside": "more than 5 tokens; symbolic tokens longer than 5 bytes other than the 254..256-character boundary tokens; generated passwords are covered through C02..C05's harnesses once those run the round trip (H11c)",
+			},
+			Assume: commonAssume,
+		},
+		{
 			ID: "C12", Sub: "spg", Level: "model_checking",
 			Harnesses: []HSpec{
 				{Name: "H12a", Quick: P{"p": 3, "q": 3}, Thorough: P{"p": 4, "q": 5}, Reach: []string{"returned", "accepted", "rejected"}},
